@@ -278,3 +278,17 @@ Proof.
   intros X H. pose proof (whole_program_if p p' passes F o X) as R. rewrite H in R. destruct R as (cf' & H' & HE).
   exists cf'. split; [exact H'|]. unfold E, core in HE. inversion HE. unfold segment_image. split; congruence.
 Qed.
+
+Theorem whole_program_if_result : forall p p' passes F o,
+  XpI p p' ->
+  match codegen passes F o p with
+  | Done cf => exists cf', codegen passes (S F) o p' = Done cf' /\ E cf cf' /\ segment_image cf = segment_image cf' /\ symbols cf = symbols cf'
+  | Failed errs cf => exists cf', codegen passes (S F) o p' = Failed errs cf' /\ E cf cf'
+  | Aborted _ => True
+  end.
+Proof.
+  intros p p' passes F o X. pose proof (whole_program_if p p' passes F o X) as R.
+  destruct (codegen passes F o p) as [cf|errs cf|f]; [|exact R|exact I].
+  destruct R as (cf' & H' & HE). exists cf'. split; [exact H'|]. split; [exact HE|].
+  unfold E, core in HE. inversion HE. unfold segment_image. split; congruence.
+Qed.
